@@ -56,17 +56,17 @@ def c16Step (l : List String) : String :=
   | ["inflate", cap, dict, hex] =>
     match parseHexA dict, parseHexA hex with
     | some d, some s =>
-      let c := if cap == "-" then some Spec.noCap else cap.toNat?
+      let c : Option (Option Nat) := if cap == "-" then some none else cap.toNat?.map some
       match c with
       | none => "bad-op"
       | some c =>
         let r := Spec.inflateRaw d s c
-        if r.out.size ≥ c then "capped " ++ hexA (r.out.extract 0 c) else
+        if Spec.capReached c r.out.size then "capped " ++ hexA (r.out.extract 0 (c.getD 0)) else
         match r.status with
         | .done => "done " ++ toString ((r.pos + 7) / 8) ++ " " ++ hexA r.out
         | .truncated => "truncated " ++ hexA r.out
         | .corrupt => "corrupt " ++ hexA r.out
-        | .capped => "capped " ++ hexA (r.out.extract 0 c)
+        | .capped => "capped " ++ hexA (r.out.extract 0 (c.getD 0))
     | _, _ => "bad-op"
   | ["adler", hex] =>
     match parseHexA hex with
